@@ -576,7 +576,8 @@ def case_lines(case):
 
 def strip_impl(l):
     """(comparable part, white-box annotation) of a harness line; ` @CYCLE oN` stays in the comparable part on purpose"""
-    i = l.find(" @PO-BAD")
+    cut = [x for x in (l.find(" @PO-BAD"), l.find(" @INV")) if x >= 0]
+    i = min(cut) if cut else -1
     return (l[:i], l[i:]) if i >= 0 else (l, "")
 
 
@@ -754,12 +755,13 @@ def main(ctx):
         "lean/GojaModel/C07 (array abstraction and its refinement theorem history_refines) for the two theorems of PropsArray.lean",
         "hand transcription of ECMA-262 10.4.3 (String exotic), 10.4.4 (arguments), 10.4.5 (integer-indexed), 20.2.4/10.2.5 (function prototype) next to the mechanism models",
         "hand transcription of ECMA-262 10.1.6.3 ValidateAndApplyPropertyDescriptor, 10.1.9.2 OrdinarySetWithOwnDescriptor, 10.1.11.1 OrdinaryOwnPropertyKeys, 7.3.15/16 integrity levels in Model.lean",
-        "JS prelude of harness/cmd/c04 (dump/tok canonicalisation)",
+        "JS prelude of harness/cmd/c04 (dump/tok canonicalisation; candidate-key probe and pre-delete descriptor probe of the op-level invariant annotations)",
+        "hand transcription of object_gomap.go / checkHostObjectPropertyDescr in GoMap.lean (text tied by Tie2.lean); ToValue(Export(v)) taken as an arbitrary function of v; symbol keys of the wrapper (ordinary symValues) not modelled",
     ]
     have_tie = os.path.exists(os.path.join(ROOT, "extract", "c04.go"))
     if have_tie:
         ctx.regen()
-    targets = ["GojaModel.C04.Props", "GojaModel.C04.PropsArray", "model_c04"] + (["GojaModel.C04.Tie"] if have_tie else [])
+    targets = ["GojaModel.C04.Props", "GojaModel.C04.PropsArray", "GojaModel.C04.PropsGoMap", "model_c04"] + (["GojaModel.C04.Tie", "GojaModel.C04.Tie2"] if have_tie else [])
     # PropsArray imports lean/GojaModel/C07, which its owner may be rebuilding at this moment (olean files vanish for a
     # while): let such a transient state settle before the judged build.  Errors in C04's own files are never waited for.
     for _ in range(3):
@@ -776,8 +778,10 @@ def main(ctx):
         sh(["lake", "build", "model_c04"], cwd=LEAN, timeout=3000)
     names = ctx.audit("GojaModel.C04.Props", expect_min=48)
     ctx.audit("GojaModel.C04.PropsArray", expect_min=2)          # rests on lean/GojaModel/C07 (array abstraction)
+    ctx.audit("GojaModel.C04.PropsGoMap", expect_min=6)         # Go map wrapper: mechanism model GoMap.lean
     if have_tie and ok:
         ctx.audit("GojaModel.C04.Tie", expect_min=1)
+        ctx.audit("GojaModel.C04.Tie2", expect_min=19)
     if ctx.tier == "thorough" and ok:
         ctx.leanchecker("GojaModel.C04.Props")
     ctx.log("lean done %.1fs" % (time.time() - t0))
@@ -815,6 +819,7 @@ def main(ctx):
     diverging = []
     crashed = []
     po_bad = []
+    inv_hits = {}
     panics = []
     n_lines = 0
     for c, (impl, mdl) in zip(cases, results):
@@ -829,8 +834,13 @@ def main(ctx):
         ctx.nontriv(("case", c["objs"], c["ops"]))
         for l in impl:
             a, po = strip_impl(l)
-            if po:
+            if " @PO-BAD" in po:
                 po_bad.append((c, l))
+            for what, oid, key in re.findall(r" @INV (\S+) o(\d+) (\S+)", po):
+                kind = c["objs"][int(oid)][0] if int(oid) < len(c["objs"]) else "?"
+                kind = {"goslicecap": "goslice"}.get(kind, kind)
+                kc = "length" if key == "slength" else "index" if key[:1] in ("i", "I") else key
+                inv_hits.setdefault("%s:%s:%s" % (kind, what, kc), (c, impl.index(l), l))
             r = a.split(" ")[0]
             rk = r if not r.startswith(("n", "r", "o", "err", "PANIC")) else r[:1] if not r.startswith(("err", "PANIC")) else r[:5]
             reskinds[rk] = reskinds.get(rk, 0) + 1
@@ -952,6 +962,19 @@ def main(ctx):
         c, impl = crashed[0]
         ctx.violation("harness-died:" + "-".join(k for k, _ in c["objs"]), "the implementation crashed or hung the harness process in this case (fatal Go error or endless loop)",
                       {"kind": "history", "objs": c["objs"], "ops": c["ops"], "lines": case_lines(c), "observed": impl[-3:]})
+
+    # operation-level essential invariants on wrapper kinds (annotated by the harness): [[Delete]] must not answer true for
+    # a property observed non-configurable; [[OwnPropertyKeys]] must list every non-configurable own property (and every
+    # own property of a non-extensible object)
+    inv_unknown = 0
+    for sig, (c, li, l) in sorted(inv_hits.items()):
+        st = ctx.violation(sig, "essential invariant (ECMA-262 6.1.7.3) broken at `%s`:%s" % (case_lines(c)[li], strip_impl(l)[1][:200]),
+                           {"kind": "history", "objs": c["objs"], "ops": c["ops"][:max(0, li - len(c["objs"]))], "lines": case_lines(c)[:li + 1],
+                            "observed": [strip_impl(x)[0][:300] + strip_impl(x)[1] for x in (results[cases.index(c)][0][:li + 1])]})
+        if st != "known":
+            inv_unknown += 1
+    ctx.obligation("op-level-essential-invariants(wrapper kinds: Delete on non-configurable, OwnPropertyKeys completeness)", "correspondence",
+                   inv_unknown == 0, "%d classes observed (%s), %d not attributed to a known finding" % (len(inv_hits), ", ".join(sorted(inv_hits)), inv_unknown))
 
     # white-box prop-order invariants
     ctx.obligation("whitebox:propNames-invariants(Rel)", "correspondence", not po_bad,
